@@ -479,13 +479,88 @@ fn decoded_requests(rep: &mut Report, only: Option<u64>) {
     }
 }
 
-fn run_client(rep: &mut Report, index: u64, register: bool, uvr: UserVerificationRequirement, ver_cap: Option<bool>, outcome: UvOutcome, store: StoreContent, outcomes: &mut HashMap<String, Vec<(StoreContent, bool, Option<u8>)>>) {
+/// A conforming store whose items are vault records with a fallible conversion into `Passkey`: some of
+/// the records the lookup returns cannot be converted. Whatever signs is what was shown; when the shown
+/// record cannot sign, nothing signs.
+fn vault_signers(rep: &mut Report, only: Option<u64>) {
+    use crate::collab::{VaultStore, VaultUv};
+    let mut index = 80_000u64;
+    for n in [2usize, 3] {
+        for locked_mask in 0u8..(1 << n) {
+            for newest_first in [false, true] {
+                for allow in [false, true] {
+                    index += 1;
+                    if only.map_or(false, |o| o != index) {
+                        continue;
+                    }
+                    rep.eval();
+                    let cj = json!({"index": index, "level": "ctap", "part": "vault records, some of which cannot be converted", "matching_records": n,
+                        "unconvertible_records_mask": locked_mask, "store_lists_newest_first": newest_first, "allow_list": allow});
+                    rep.nontrivial(fnv_str(&cj.to_string()));
+                    let mut rng = Rng::derive(7, "c04vault", index);
+                    let rig = Rig::ok(Disc::Full);
+                    rig.store.set_newest_first(newest_first);
+                    let mut keys: HashMap<Vec<u8>, (Vec<u8>, Vec<u8>)> = HashMap::new();
+                    let locked: std::sync::Arc<std::sync::Mutex<std::collections::HashSet<Vec<u8>>>> = Default::default();
+                    let mut descs = vec![];
+                    for j in 0..n {
+                        let id = vec![0xC0u8 + j as u8; 16];
+                        let (p, x, y) = seeded_passkey(&mut rng, RP, &id, Some(format!("user{j}").as_bytes()), Some(5), None);
+                        rig.store.insert_raw(p);
+                        keys.insert(id.clone(), (x, y));
+                        if locked_mask & (1 << j) != 0 {
+                            locked.lock().unwrap().insert(id.clone());
+                        }
+                        descs.push(descriptor(&id));
+                    }
+                    let store = VaultStore { inner: rig.store.clone(), locked: locked.clone(), rp_as_converted: None };
+                    let mut auth = passkey_authenticator::Authenticator::new(passkey_types::ctap2::Aaguid::new_empty(), store, VaultUv(rig.uv.clone()));
+                    let cdh = [2u8; 32];
+                    match catch(|| block_on(auth.get_assertion(ga_request(RP, &cdh, allow.then_some(descs), None, true, true)))) {
+                        Err((sig, d)) => rep.violate(&format!("ctap: ceremony {sig}"), d, cj),
+                        Ok(Err(_)) => rep.count("vault_cases_refused"),
+                        Ok(Ok(r)) => {
+                            rep.count("vault_cases_signed");
+                            let events = rig.log.snapshot();
+                            let shown = last_check(&events, events.len()).and_then(|c| c.0);
+                            let Some(shown) = shown else {
+                                rep.violate("ctap: an assertion was signed although no record was shown to the user", String::new(), cj.clone());
+                                continue;
+                            };
+                            if let Some(used) = r.credential.as_ref().map(|d| d.id.to_vec()) {
+                                if used != shown {
+                                    rep.violate("ctap: credential shown to the user for consent is not the one that signed", format!("shown {} used {} (the shown vault record cannot be converted)", hex_short(&shown), hex_short(&used)), cj.clone());
+                                }
+                            }
+                            let mut msg = r.auth_data.to_vec();
+                            msg.extend_from_slice(&cdh);
+                            match keys.get(&shown) {
+                                Some((x, y)) => {
+                                    if crate::oracle::verify_es256_any(x, y, &msg, &r.signature).is_err() {
+                                        rep.violate("ctap: the signature does not verify under the key of the record shown to the user", format!("shown {}", hex_short(&shown)), cj.clone());
+                                    }
+                                }
+                                None => rep.violate("ctap: a record the store does not hold was shown", hex_short(&shown), cj.clone()),
+                            }
+                            if locked.lock().unwrap().contains(&shown) {
+                                rep.violate("ctap: an assertion was signed although the record shown to the user cannot sign", hex_short(&shown), cj.clone());
+                            }
+                        }
+                    }
+                }
+            }
+        }
+    }
+}
+
+fn run_client(rep: &mut Report, index: u64, register: bool, uvr: UserVerificationRequirement, ver_cap: Option<bool>, pres_cap: bool, outcome: UvOutcome, store: StoreContent, outcomes: &mut HashMap<String, Vec<(StoreContent, bool, Option<u8>)>>) {
     rep.eval();
     let cj = json!({"index": index, "level": "client", "op": if register {"register"} else {"authenticate"}, "userVerification": format!("{uvr:?}"),
-        "verification_capability": ver_cap, "uv_outcome": format!("{outcome:?}"), "store": format!("{store:?}")});
+        "verification_capability": ver_cap, "presence_capability": pres_cap, "uv_outcome": format!("{outcome:?}"), "store": format!("{store:?}")});
     rep.nontrivial(fnv_str(&cj.to_string()));
     let mut rng = Rng::derive(7, "c04c", index);
-    let rig = Rig::new(Disc::Full, outcome, ver_cap);
+    let mut rig = Rig::new(Disc::Full, outcome, ver_cap);
+    rig.uv.presence_enabled = pres_cap;
     let ids = prepare(&rig, store, &mut rng);
     let before = rig.store.snapshot();
     let mut client = rig.client(AuthCfg { counters: true, ..Default::default() });
@@ -520,13 +595,13 @@ fn run_client(rep: &mut Report, index: u64, register: bool, uvr: UserVerificatio
     let flags = if ok { authdata::decode(&ad).ok().map(|a| a.flags) } else { None };
     let after = rig.store.snapshot();
     let o = Observed { ok, status: None, flags, used_id: used, events: rig.log.snapshot(), store_changed: after != before };
-    let c = Case { make: register, rk: false, up: true, uv: uv_req, ver_cap, pres_cap: true, outcome, pin_auth: false, store, exclude_hit: false, allow: 0 };
+    let c = Case { make: register, rk: false, up: true, uv: uv_req, ver_cap, pres_cap, outcome, pin_auth: false, store, exclude_hit: false, allow: 0 };
     rep.count(if ok { "client_ok" } else { "client_err" });
     judge(rep, "client", &cj, true, uv_req, c.consent_missing(), &o);
     if c.consent_missing().is_some() {
         // same outcome with / without a matching credential: compare the error text
         let code = err.as_ref().map(|e| (fnv_str(e) % 251) as u8);
-        outcomes.entry(format!("client|{register}|{uvr:?}|{ver_cap:?}|{outcome:?}")).or_default().push((store, ok, code));
+        outcomes.entry(format!("client|{register}|{uvr:?}|{ver_cap:?}|{pres_cap}|{outcome:?}")).or_default().push((store, ok, code));
     }
 }
 
@@ -535,7 +610,7 @@ pub fn run(args: &Args) -> Report {
         "C04",
         &args.tier,
         args.seed,
-        "complete product operation x rk x up x uv x verification capability x presence capability x user-validation outcome (4 reports + 2 errors) x pin-auth x store content (no / one / two matching credentials, exclude-list hit or miss; for assertions: no allow list / naming a held id / naming an unknown id) at CTAP level, plus 36 assertion cases in which another credential of the RP arrives in the store while the user is being asked, plus 36 pairs of ceremonies on one authenticator between which the verification capability report changes, plus 32 requests decoded from CBOR whose options map names only some members, plus userVerification x capability x outcome x store content at client level; distinct by the tuple; every tuple is non-trivial (finite product)",
+        "complete product operation x rk x up x uv x verification capability x presence capability x user-validation outcome (4 reports + 2 errors) x pin-auth x store content (no / one / two matching credentials, exclude-list hit or miss; for assertions: no allow list / naming a held id / naming an unknown id) at CTAP level, plus 36 assertion cases in which another credential of the RP arrives in the store while the user is being asked, plus 36 pairs of ceremonies on one authenticator between which the verification capability report changes, plus 32 requests decoded from CBOR whose options map names only some members, plus 48 assertions over a store of vault records some of which cannot be converted into a Passkey, plus userVerification x verification capability x presence capability x outcome x store content at client level; distinct by the tuple; every tuple is non-trivial (finite product)",
     );
     rep.exhaustive = true;
     let only = replay_index(args);
@@ -556,15 +631,17 @@ pub fn run(args: &Args) -> Report {
         UvOutcome::Err(0x27),
         UvOutcome::Err(0x2F),
     ];
-    for register in [true, false] {
-        for uvr in [UserVerificationRequirement::Required, UserVerificationRequirement::Preferred, UserVerificationRequirement::Discouraged] {
-            for ver_cap in [None, Some(false), Some(true)] {
-                for outcome in outs {
-                    for store in [StoreContent::NoMatch, StoreContent::OneMatch, StoreContent::TwoMatches] {
-                        if only.map_or(true, |o| o == k) {
-                            run_client(&mut rep, k, register, uvr, ver_cap, outcome, store, &mut outcomes);
+    for pres_cap in [true, false] {
+        for register in [true, false] {
+            for uvr in [UserVerificationRequirement::Required, UserVerificationRequirement::Preferred, UserVerificationRequirement::Discouraged] {
+                for ver_cap in [None, Some(false), Some(true)] {
+                    for outcome in outs {
+                        for store in [StoreContent::NoMatch, StoreContent::OneMatch, StoreContent::TwoMatches] {
+                            if only.map_or(true, |o| o == k) {
+                                run_client(&mut rep, k, register, uvr, ver_cap, pres_cap, outcome, store, &mut outcomes);
+                            }
+                            k += 1;
                         }
-                        k += 1;
                     }
                 }
             }
@@ -579,6 +656,9 @@ pub fn run(args: &Args) -> Report {
     }
     if only.map_or(true, |o| (70_000..80_000).contains(&o)) {
         decoded_requests(&mut rep, only);
+    }
+    if only.map_or(true, |o| (80_000..90_000).contains(&o)) {
+        vault_signers(&mut rep, only);
     }
     // (I4) while consent is missing the outcome does not depend on the store content
     for (group, v) in &outcomes {
